@@ -1,0 +1,142 @@
+// SPDX-License-Identifier: Apache-2.0
+//! Footprint-guard seams (property C14): the crate-private write-target table and the
+//! single-op / single-read checks of `FootprintGuard`, callable on arbitrary inputs.
+//!
+//! Only meaningful when enforcement is compiled in (`debug_assertions` or
+//! `footprint_enforce_release`, and not `unsafe_graph`); otherwise `ENFORCED` is `false` and the
+//! functions report "no enforcement".
+use crate::attachment::AttachmentKey;
+use crate::footprint::Footprint;
+use crate::footprint_guard::FootprintViolation;
+use crate::ident::{EdgeId, NodeId, WarpId};
+use crate::tick_patch::WarpOp;
+
+/// `true` iff the enforcement machinery is compiled into this build.
+pub const ENFORCED: bool = cfg!(all(
+    any(debug_assertions, feature = "footprint_enforce_release"),
+    not(feature = "unsafe_graph")
+));
+
+/// Plain-data copy of the crate-private `OpTargets`.
+#[derive(Debug, Clone)]
+pub struct Targets {
+    pub nodes: Vec<NodeId>,
+    pub edges: Vec<EdgeId>,
+    pub attachments: Vec<AttachmentKey>,
+    pub is_instance_op: bool,
+    pub op_warp: Option<WarpId>,
+    pub kind_str: &'static str,
+}
+
+/// `footprint_guard::op_write_targets` (crate-private).
+#[cfg(all(any(debug_assertions, feature = "footprint_enforce_release"), not(feature = "unsafe_graph")))]
+pub fn op_write_targets(op: &WarpOp) -> Option<Targets> {
+    let t = crate::footprint_guard::op_write_targets(op);
+    Some(Targets {
+        nodes: t.nodes,
+        edges: t.edges,
+        attachments: t.attachments,
+        is_instance_op: t.is_instance_op,
+        op_warp: t.op_warp,
+        kind_str: t.kind_str,
+    })
+}
+
+#[cfg(not(all(any(debug_assertions, feature = "footprint_enforce_release"), not(feature = "unsafe_graph"))))]
+pub fn op_write_targets(_op: &WarpOp) -> Option<Targets> {
+    None
+}
+
+/// One guarded read access of `GraphView`.
+#[derive(Debug, Clone, Copy)]
+pub enum Read {
+    Node(NodeId),
+    EdgesFrom(NodeId),
+    NodeAttachment(NodeId),
+    EdgeAttachment(EdgeId),
+    HasEdge(EdgeId),
+}
+
+fn violation_of(p: Box<dyn std::any::Any + Send>) -> Result<FootprintViolation, String> {
+    match p.downcast::<FootprintViolation>() {
+        Ok(v) => Ok(*v),
+        Err(_) => Err("non-violation panic".to_string()),
+    }
+}
+
+/// `FootprintGuard::new(fp, warp, name, is_system).check_op(op)`; `Ok(None)` = accepted.
+#[cfg(all(any(debug_assertions, feature = "footprint_enforce_release"), not(feature = "unsafe_graph")))]
+pub fn check_op(
+    fp: &Footprint,
+    warp: WarpId,
+    is_system: bool,
+    op: &WarpOp,
+) -> Result<Option<FootprintViolation>, String> {
+    use std::panic::{catch_unwind, AssertUnwindSafe};
+    let guard = catch_unwind(AssertUnwindSafe(|| {
+        crate::footprint_guard::FootprintGuard::new(fp, warp, "verif/guard", is_system)
+    }))
+    .map_err(|_| "guard-construction-panic".to_string())?;
+    match catch_unwind(AssertUnwindSafe(|| guard.check_op(op))) {
+        Ok(()) => Ok(None),
+        Err(p) => violation_of(p).map(Some),
+    }
+}
+
+#[cfg(not(all(any(debug_assertions, feature = "footprint_enforce_release"), not(feature = "unsafe_graph"))))]
+pub fn check_op(
+    _fp: &Footprint,
+    _warp: WarpId,
+    _is_system: bool,
+    _op: &WarpOp,
+) -> Result<Option<FootprintViolation>, String> {
+    Err("enforcement-compiled-out".to_string())
+}
+
+/// One read through `GraphView::new_guarded(store, guard)`; `Ok(None)` = accepted.
+#[cfg(all(any(debug_assertions, feature = "footprint_enforce_release"), not(feature = "unsafe_graph")))]
+pub fn check_read(
+    fp: &Footprint,
+    store: &crate::graph::GraphStore,
+    read: Read,
+) -> Result<Option<FootprintViolation>, String> {
+    use std::panic::{catch_unwind, AssertUnwindSafe};
+    let warp = store.warp_id();
+    let guard = catch_unwind(AssertUnwindSafe(|| {
+        crate::footprint_guard::FootprintGuard::new(fp, warp, "verif/guard", false)
+    }))
+    .map_err(|_| "guard-construction-panic".to_string())?;
+    let r = catch_unwind(AssertUnwindSafe(|| {
+        let view = crate::graph_view::GraphView::new_guarded(store, &guard);
+        match read {
+            Read::Node(n) => {
+                let _ = view.node(&n);
+            }
+            Read::EdgesFrom(n) => {
+                let _ = view.edges_from(&n).count();
+            }
+            Read::NodeAttachment(n) => {
+                let _ = view.node_attachment(&n);
+            }
+            Read::EdgeAttachment(e) => {
+                let _ = view.edge_attachment(&e);
+            }
+            Read::HasEdge(e) => {
+                let _ = view.has_edge(&e);
+            }
+        }
+    }));
+    match r {
+        Ok(()) => Ok(None),
+        Err(p) => violation_of(p).map(Some),
+    }
+}
+
+#[cfg(not(all(any(debug_assertions, feature = "footprint_enforce_release"), not(feature = "unsafe_graph"))))]
+pub fn check_read(
+    _fp: &Footprint,
+    _store: &crate::graph::GraphStore,
+    _read: Read,
+) -> Result<Option<FootprintViolation>, String> {
+    Err("enforcement-compiled-out".to_string())
+}
